@@ -77,7 +77,7 @@ Proof.
     pose proof (prep_refl K V ltb order o0 r (tr s) rt (fresh s) Hsh Hnodup Hlt Hf Hr) as Hprep.
     eapply ins_eff_exact. eapply (ins_eff_prep K V ltb HS order); eauto.
   - apply GIa1_Proof.bind_some_inv in Hb.
-    destruct (ins_child_prep K V ltb HS order o0 p c index (tr s) _ _ _ o H2 Hev Hsh Hnodup Hlt Hpc Hb)
+    destruct (ins_child_prep_n K V ltb HS order o0 p c index (tr s) _ _ _ o H2 Hev Hsh Hnodup Hlt Hpc Hb)
       as [(t' & fr' & Hprep & Hd)|Heff]; [pose proof (ins_eff_prep K V ltb HS order _ _ _ _ _ _ _ _ Hprep Hd) as Heff|];
       eapply ins_eff_exact; eauto.
   - apply GIa1_Proof.bind_some_inv in Hb. cbn [pc_ok_b] in Hpc.
